@@ -88,6 +88,11 @@ def l2_monitor(spec, rec, obs):
     for n, c in per.items():
         if c > hs[n]["max_recoveries"]:
             out.append("handler %s entered %d times on one lineage, max_recoveries=%d" % (n, c, hs[n]["max_recoveries"]))
+    for r in entries:
+        fs = r.get("failed_step")
+        if fs is not None and expected_owner(spec, fs) != r["step"]:
+            out.append("the failure of step %s was handed to handler %s, its owner is %s"
+                       % (fs, r["step"], expected_owner(spec, fs)))
     # every exhausted failure: find exits by raise, in order, and the policy's exhaustion is visible as the
     # next handler entry or the run failure; check the owner of every handler entry through the StepFailedEvent
     sfe = [e for e in obs.stream if isinstance(e, StepFailedEvent)]
@@ -117,6 +122,59 @@ def l2_monitor(spec, rec, obs):
 
 def handler_order(rec, hs):
     return [(r["step"]) for r in rec.log if r["kind"] == "enter" and r["step"] in hs]
+
+
+async def _resume_on_fresh_instance(seed):
+    """a run with @catch_error handlers is snapshotted while the step that will fail is still working (parked at a gate),
+    stopped, and resumed with Context.from_dict on a workflow OBJECT THAT HAS NEVER RUN; the failure then exhausts the
+    step's retries and must be routed to its owner exactly as in an uninterrupted run"""
+    import asyncio
+    import json
+    import vloop
+    from suites import engine as E
+    from suites.wfevents import T1
+    from workflows import Context
+    from workflows import retry_policy as rp
+    from workflows.events import StartEvent, StopEvent
+    rng = random.Random(seed)
+    layout = rng.choice(["scoped", "wild", "both"])
+    handlers = {}
+    if layout in ("scoped", "both"):
+        handlers["h_scoped"] = dict(for_steps=["b_work"], max_recoveries=2, returns=[StopEvent], script=[("return_const", "scoped")])
+    if layout in ("wild", "both"):
+        handlers["h_wild"] = dict(for_steps=None, max_recoveries=2, returns=[StopEvent], script=[("return_const", "wild")])
+    spec = dict(steps={
+        "a_start": dict(accepts=[StartEvent], returns=[T1], num_workers=1, script=[("return", T1)]),
+        "b_work": dict(accepts=[T1], returns=[StopEvent], num_workers=1,
+                       policy=rp.retry_policy(wait=rp.wait_fixed(0), stop=rp.stop_after_attempt(rng.choice([1, 2]))),
+                       script=[("gate", "w"), ("raise", "value", "boom")]),
+    }, handlers=handlers, disable_validation=rng.random() < 0.5)
+    rec = E.Recorder()
+    wf = E.build_workflow(spec, rec)
+    handler = wf.run()
+
+    async def drain(h):
+        try:
+            async for _ in h.stream_events(expose_internal=True):
+                pass
+        except Exception:  # noqa: BLE001
+            pass
+    cons = asyncio.ensure_future(drain(handler))
+    await vloop.settle()
+    d = json.loads(json.dumps(handler.ctx.to_dict()))
+    await handler.cancel_run()
+    await vloop.settle()
+    try:
+        await handler
+    except BaseException:  # noqa: BLE001
+        pass
+    await asyncio.gather(cons, return_exceptions=True)
+    rec2 = E.Recorder()
+    rec2.eid = rec.eid
+    wf2 = E.build_workflow(spec, rec2)           # a fresh object: never run, never validated by a run
+    obs = await E.drive(wf2, rec2, rng, ctx=Context.from_dict(wf2, d), policy="random")
+    want = "scoped" if "h_scoped" in handlers else "wild"
+    return dict(spec=spec, obs=obs, want=want, layout=layout)
 
 
 def run(ctx):
@@ -194,6 +252,25 @@ def run(ctx):
     ctx.programs += 2 * npairs
     ctx.suite("engine.validation_pairs", pairs=npairs, differing=ndiff)
     report_l2(ctx, fails2)
+    # routing after a resume on a workflow object that has never run
+    import vloop
+    nr, routed = ctx.n(30, 400), 0
+    for i in range(nr):
+        seed = rng.randrange(1 << 30)
+        r = vloop.run(_resume_on_fresh_instance(seed))
+        obs = r["obs"]
+        ctx.count(1, ("fresh-resume", r["layout"], r["spec"]["disable_validation"]))
+        if obs.done and obs.exception is None and obs.result == r["want"]:
+            routed += 1
+        else:
+            ctx.violation("C08 fails on the real engine: a run snapshotted before its step failed and resumed on a workflow object "
+                          "that had never run ended with result=%r exception=%r; the exhausted failure of b_work belongs to handler %s "
+                          "(layout %s, disable_validation=%s)" % (obs.result, obs.exception, "h_" + r["want"], r["layout"],
+                                                                 r["spec"]["disable_validation"]),
+                          dict(kind="implementation-monitor/L2", input=dict(template="catch_error + snapshot + resume on a fresh object", seed=seed)))
+            break
+    ctx.programs += nr
+    ctx.suite("engine.resume_on_fresh_instance", runs=nr, routed_to_owner=routed)
 
 
 def replay(ctx, path):
